@@ -123,7 +123,14 @@ Definition upcast_prop (p : prop) : prop :=
 
 (* create_props_metadata: dtype and varlength of a property (after the float16 upcast) *)
 Definition new_pm (d : dtype) (vl : bool) : pmeta := mkpm d vl None None None.
-Definition create_props_metadata (name : string) (p : prop) : res pmeta :=
+(* the dtype check of a variable-length property runs on the elements AS GIVEN, before the float16 upcast: a float16 element
+   next to a float32 element is "two dtypes" (ValueError), although both would be float32 after the upcast *)
+Definition vlen_dtypes_uniform (p : prop) : bool :=
+  match p_vals p with
+  | PVlen (e :: r) => forallb (fun x => dtype_eqb (v_dt x) (v_dt e)) r
+  | _ => true
+  end.
+Definition cpm_core (name : string) (p : prop) : res pmeta :=
   match p_vals (upcast_prop p) with
   | PFixed a =>
       if valid_prop_dtype (a_dt a) && negb (String.eqb name "") then Ok (new_pm (a_dt a) false) else Err ValueError
@@ -133,6 +140,9 @@ Definition create_props_metadata (name : string) (p : prop) : res pmeta :=
       then (if valid_prop_dtype (v_dt e) && negb (String.eqb name "") then Ok (new_pm (v_dt e) true) else Err ValueError)
       else Err ValueError
   end.
+
+Definition create_props_metadata (name : string) (p : prop) : res pmeta :=
+  if vlen_dtypes_uniform p then cpm_core name p else Err ValueError.
 
 (* the rows of the values table of a variable-length property, as a uint64 array *)
 Definition rows_arr (rows : list (list nat)) : arr :=
